@@ -747,9 +747,12 @@ class CodeGen:
                 yield from origin_bubble.value.set(asm.State(self.ap))
                 static_size = self.array_size(el_type, length)
                 # We must advance ap before, not after we write values
-                # It should be fine not to update self.stack yet though.
+                # The array is only added to self.stack at the end, but
+                # its space is already in use while the elements are
+                # evaluated, so count it for anything they push.
                 yield asm.Metadata('Array allocation (ArrayLiteral)')
                 yield asm.Add(self.ap, asm.State(self.ap), asm.IntLiteral(static_size))
+                self.stack = self.stack.add(static_array_size=static_size)
                 if el_type == DataType.BOOL:
                     foundation = self.pack_bools([
                         isinstance(el_expr, ast.BoolValue) and el_expr.data
@@ -797,6 +800,7 @@ class CodeGen:
                         offset += stride
                     assert offset == 0
 
+                self.stack = self.stack.add(static_array_size=-static_size)
                 access_mode = AccessMode.R if expr.type.const else AccessMode.RW
                 return self.create_new_stack_array(
                     ConcreteArrayType(expr.type.el_type, access_mode),
